@@ -129,6 +129,9 @@ def run(ctx):
         R.must_pass(ctx, "C05.R4", key, r"noodles_bam::io::reader::record::validate$", "read_record validates after reading the body",
                     start_after=lambda c: (c.get("f") or "").endswith("::read_exact"))
 
+    # ---------------------------------------------------------------- R5 validate bounds what the lazy accessors slice
+    validate_formula_rule(ctx, "C05.R5")
+
     # ---------------------------------------------------------------- R6 tables
     ctx.rule("C05.R6", "A7 dec∘enc = id exhaustively for CIGAR kind / aux type / array subtype tables; sentinels agree")
     a7.table_agreement(ctx, "C05.R6", {"noodles_bam"}, 3)
@@ -160,3 +163,40 @@ def run(ctx):
             ctx.violation("C05.R7", "C05.R7/geometry/" + f.key,
                           "reg2bin constants differ from SAMv1 §5.3: shifts %s (want %s), offsets %s (want ⊇ %s)" % (
                               sorted(set(shifts)), sorted(want_shifts), sorted(set(offsets)), sorted(want_offsets)), f.loc())
+
+
+def _formula_tokens(fb, key):
+    out = set()
+    for g in fb.family(key):
+        for blk in g.blocks:
+            t = blk["t"]
+            if t[0] == "call":
+                k = t[1].get("f") or ""
+                if k.split("::")[-1] in ("div_ceil", "size_of"):
+                    out.add(k.split("::")[-1] + ":" + (t[1].get("ga") or ""))
+    return out
+
+
+def validate_formula_rule(ctx, rule):
+    """validate()'s size formula contains every term the lazy slicers of the raw BAM record use (shared with C15.G)."""
+    fb = ctx.fb
+    ctx.rule(rule, "A7 sibling agreement: validate()'s size formula contains every term the lazy slicers use (4*n_cigar, ceil(l_seq/2))")
+    fv = ctx.anchor(rule, B + "io::reader::record::validate")
+    if fv is not None:
+        vt = _formula_tokens(fb, fv.key)
+        slicers = [k for k in fb.fns if k.startswith(B + "record_ref::RecordRef::<'a>::raw_") or k == B + "record_ref::RecordRef::<'a>::cigar"]
+        ctx.floor(rule, "lazy slicers of the raw record", len(slicers), 4)
+        need = set()
+        for k in slicers:
+            ctx.saw_fn(fb.fns[k])
+            need |= _formula_tokens(fb, k)
+        missing = need - vt
+        if missing:
+            ctx.violation(rule, rule + "/validate-formula/" + fv.key,
+                          "validate() no longer accounts for %s although the lazy accessors slice with it: a record that passes validation "
+                          "can make an accessor slice out of range" % sorted(missing), fv.loc())
+        else:
+            ctx.ok(rule, "validate() formula ⊇ slicer terms %s" % sorted(need), "", fv.loc())
+        R.const_rule(ctx, rule, "fixed-size prefix", {"m": B + "io::reader::record::validate::MIN_BUF_LENGTH"},
+                     lambda v: (v["m"] == 32, "32 bytes before the read name"), "SAMv1 §4.2")
+
